@@ -184,6 +184,18 @@ def serve_case(res, rng, length, tmp):
         if err is not None:
             res.violation(f"update-raises:{core.exc_sig(err)}", f"update_fw raised {type(err).__name__}: {err}", case)
             return
+        if rng.random() < 0.3:
+            # the documented short form: the firmware is loaded already, further updates name only its type and version
+            # (node by node, and once more for a node that is already scheduled)
+            k = 0
+            for n in nodes[1:] + rng.sample(nodes, rng.randint(1, len(nodes))):
+                err = eng.call("fw", n, ft, fv, None)
+                k += 1
+                if err is not None:
+                    res.violation(f"update-raises:{core.exc_sig(err)}:short-form", f"update_fw without a file raised {type(err).__name__}: {err}", case)
+                    return
+            case["short_form_calls"] = k
+            res.count("updates_scheduled_without_a_file", k)
         # --- config response per node
         B = C = None
         for n in nodes:
@@ -347,7 +359,8 @@ def finish(agg, tier):
         "floors": [("images_reassembled", c.get("images_reassembled", 0), 300), ("block_requests", c.get("block_requests", 0), 100000),
                    ("intel_hex_loads", c.get("intel_hex_loads", 0), 80), ("intel_hex_with_holes", c.get("intel_hex_with_holes", 0), 20),
                    ("reloaded_same_id_cases", c.get("reloaded_same_id_cases", 0), 80), ("parallel_firmware_cases", c.get("parallel_firmware_cases", 0), 40),
-                   ("cross_firmware_responses", c.get("cross_firmware_responses", 0), 500)],
+                   ("cross_firmware_responses", c.get("cross_firmware_responses", 0), 500),
+                   ("updates_scheduled_without_a_file", c.get("updates_scheduled_without_a_file", 0), 100)],
         "assumptions": ["independent bitwise CRC-16/MODBUS (poly 0xA001, init 0xFFFF)"],
         "show": ["images_reassembled", "block_requests", "intel_hex_loads", "cross_firmware_responses"],
     }
